@@ -644,6 +644,10 @@ class Fx:
                 recvv = self.ev(e.func.value, env, fi)
                 if isinstance(e.func.value, ast.Call) and dotted(e.func.value.func) == 'super':
                     recvv = env.get(fi.self_name, U)
+            elif isinstance(e.func, ast.Name) and fi.self_name and all(t.is_method and fi.cls is not None and t.cls is not None for t in tg) and \
+                    e.func.id in fi.defs() and all(k_ in ('assign', 'for', 'unpack', 'comp') for k_, *_ in fi.defs()[e.func.id]):
+                # a bound method held in a local (`for n, step in ((10, self.a), ...): step()`): the receiver is the object the table was built on
+                recvv = env.get(fi.self_name, U)
             out = None
             for t in tg:
                 if t.name == '__init__' and not (isinstance(e.func, ast.Attribute) and e.func.attr == '__init__'):
